@@ -218,6 +218,27 @@ def main(tier):
                 chk.ob("C01v", "%s: item `%s` of the per-variable locator %s" % (f.name, show(item)[:20], a[0].get("q") or show(a[0])), f.loc(c), True,
                        key="C01v|%s|%s|%s" % (fkey_of(f), a[0].get("q") or show(a[0]), show(item)[:20]), nontrivial=item is not None and item.get("d") in varloops)
     chk.floor("C01v", nv, 2)
+    # C01b: the block whose variance C(v,v) enters the estimation variance is the block whose covariance with the data enters the
+    # right-hand side: within one function, all the discretisations of the target block (DbGrid::getDiscretizedBlock) describe the
+    # same block - same numbers of points, same target, same per-cell flag; only the randomisation arguments may differ
+    nb = 0
+    for f in sorted(prog.funcs, key=lambda x: (x.file, x.line)):
+        if f.body is None:
+            continue
+        cs = [c for c in f.calls() if (c.get("callee") or "").endswith("::getDiscretizedBlock")]
+        if len(cs) < 2:
+            continue
+        ref = [show(a) if a is not None else None for a in call_args(cs[0])[:3]]
+        for c in cs[1:]:
+            cur = [show(a) if a is not None else None for a in call_args(c)[:3]]
+            nb += 1
+            ok = cur == ref
+            chk.analysed(f)
+            chk.ob("C01b", "%s: the discretisations of the target block describe the same block" % f.name, f.loc(c), ok,
+                   detail=None if ok else "one discretisation is built with (%s), another with (%s): the block variance C(v,v) is computed for another block than the one "
+                   "whose covariance with the data forms the right-hand side (the estimation variance is not C(v,v) - lambda' C(data,v) of one block)" % (
+                       ", ".join(map(str, ref)), ", ".join(map(str, cur))), key="C01b|%s" % fkey_of(f))
+    chk.floor("C01b", nb, 1)
     chk.extra["sinks_with_inferred_kind"] = nk
     chk.floor("C01", n, 60)
     chk.floor("C01-kinded", nk, 30)
